@@ -83,4 +83,63 @@ Qed.
 (* the remaining case - free at look-up, taken at commit - is the registration race itself: the
    commit refuses (C18_registration_window_safe), nobody gets a nick twice *)
 
+(* ---------------------------------------------------------------- KILL delivered late
+   In the server a KILL only marks the victim and signals its task; the victim's own task tears the
+   session down when it gets to run - at once in [step], but arbitrarily later when that task is stuck
+   (e.g. writing to a client that does not read).  [lazy_step] is the schedule-free version: events are
+   processed WITHOUT delivering pending KILLs, and [LDeliver j] is the moment connection j's task
+   notices its mark.  Ownership survives every such schedule. *)
+Inductive levent := LEvent (i : nat) (e : event) | LDeliver (j : nat).
+
+Definition lazy_step (w : world) (x : levent) : res world :=
+  match x with
+  | LEvent i e => let! (w1, _, _) := step_raw cfg verify w i e in Ok w1
+  | LDeliver j => match conns w !! j with Some _ => teardown j w | None => Ok w end
+  end.
+
+Fixpoint lazy_run (w : world) (xs : list levent) : res world :=
+  match xs with
+  | [] => Ok w
+  | x :: xs' => let! w1 := lazy_step w x in lazy_run w1 xs'
+  end.
+
+Lemma lazy_step_ok w x : InvK w -> exists w', lazy_step w x = Ok w' /\ InvK w'.
+Proof.
+  intros K. destruct x as [i e|j]; cbn [lazy_step].
+  - destruct (step_raw_ok cfg verify w i e K) as [w1 [o [cl [-> K1]]]]. cbn [rbind]. eauto.
+  - destruct (conns w !! j) as [c|] eqn:Hc; [|eauto].
+    destruct (teardown_ok j w c K Hc) as [w' [-> [K' _]]]. eauto.
+Qed.
+
+Theorem lazy_run_ok xs : forall w, InvK w -> exists w', lazy_run w xs = Ok w' /\ InvK w'.
+Proof.
+  induction xs as [|x xs IH]; intros w K; cbn [lazy_run]; [eauto|].
+  destruct (lazy_step_ok w x K) as [w1 [-> K1]]. cbn [rbind]. apply IH, K1.
+Qed.
+
+(* whenever and in whatever order the marked connections notice their KILL - or never -: no abort, and in
+   the world reached every nick has exactly one owner, a live registered connection carrying that nick,
+   and every registered connection owns the record under its nick.  In particular a killed connection
+   that has not yet noticed still holds its nick (a newcomer is refused), and its late teardown removes
+   its own record only *)
+Theorem deferred_kill_ownership xs :
+  exists w, lazy_run (world_init cfg) xs = Ok w /\
+    (forall n u, users (sh w) !! n = Some u ->
+       exists c, conns w !! u_conn u = Some c /\ c_auth c = true /\ c_nick c = Some n) /\
+    (forall i c, conns w !! i = Some c -> c_auth c = true ->
+       exists n u, c_nick c = Some n /\ users (sh w) !! n = Some u /\ u_conn u = i).
+Proof.
+  destruct (lazy_run_ok xs (world_init cfg) (InvK_of_Inv _ (Inv_init cfg))) as [w [H K]].
+  exists w. split; [exact H|]. split; [exact (ik_uc w K)|]. intros i c Hc A. exact (ik_cu w K i c Hc A).
+Qed.
+
+(* a late teardown removes the record of the connection it ends and nobody else's *)
+Theorem late_teardown_own_only w j c w' : InvK w -> conns w !! j = Some c -> lazy_step w (LDeliver j) = Ok w' ->
+  (forall n u, users (sh w') !! n = Some u -> users (sh w) !! n = Some u /\ u_conn u <> j) /\
+  (forall n u, users (sh w) !! n = Some u -> u_conn u <> j -> users (sh w') !! n = Some u).
+Proof.
+  intros K Hc H. cbn [lazy_step] in H. rewrite Hc in H.
+  destruct (teardown_ok j w c K Hc) as [w2 [E [_ [_ [A B]]]]]. rewrite H in E. injection E as <-. split; assumption.
+Qed.
+
 End conc.
